@@ -38,6 +38,7 @@ const (
 	addrC1 = "0x00000000000000000000000000000000c0de0001"
 	addrC2 = "0x00000000000000000000000000000000c0de0002"
 	addrC3 = "0x00000000000000000000000000000000c0de0003" // uses opcodes introduced by proposal 022
+	addrC5 = "0x00000000000000000000000000000000c0de0005" // probe: observes other accounts without calling them
 	addrC4 = "0x00000000000000000000000000000000c0de0004" // uses an opcode introduced by proposal 014
 	minerX = "0x00000000000000000000000000000000000000000000000000000000000aa001"
 )
@@ -56,6 +57,9 @@ type Input struct {
 	// Seam "" = block executor on a prepared parent state; "verifyblock" = the exported
 	// BlockChain.VerifyBlock on the genesis parent with the transactions in the pool
 	Seam string `json:"seam,omitempty"`
+	// Sib: the parent state is the sibling state (same accounts, different contents) instead
+	// of the base state
+	Sib bool `json:"sib,omitempty"`
 }
 
 type Case struct {
@@ -66,7 +70,8 @@ type Case struct {
 
 var (
 	baseRoot common.Hash
-	preTouch [][]int // ordered subsets (<=2) of read ids; index 0 = none
+	sibRoot  common.Hash // sibling parent state: same addresses, different code / balances / storage
+	preTouch [][]int     // ordered subsets (<=2) of read ids; index 0 = none
 )
 
 func word(v int64) []byte { return common.BigToHash(big.NewInt(v)).Bytes() }
@@ -103,6 +108,25 @@ func stakeOpsCode() []byte {
 	return p.Return(0, 0).Bytes()
 }
 
+// probeCode observes OTHER accounts without calling them: EXTCODESIZE / EXTCODEHASH /
+// first word of EXTCODECOPY of C1 and C2, BALANCE of A, own slot 0; the digest of all of it
+// is stored (so it reaches the state root) and the raw values are logged.
+func probeCode() []byte {
+	p := asm.New()
+	c1 := common.HexToAddress(addrC1).Bytes()
+	c2 := common.HexToAddress(addrC2).Bytes()
+	a := common.HexToAddress(node.AcctA).Bytes()
+	p.Push(32).Push(0).Push(0).PushN(20, c2).Op(vm.EXTCODECOPY) // mem[0:32] = code(C2)[0:32]
+	p.PushN(20, c1).Op(vm.EXTCODESIZE).Push(32).Op(vm.MSTORE)
+	p.PushN(20, c1).Op(vm.EXTCODEHASH).Push(64).Op(vm.MSTORE)
+	p.PushN(20, c2).Op(vm.EXTCODESIZE).Push(96).Op(vm.MSTORE)
+	p.PushN(20, a).Op(vm.BALANCE).Push(128).Op(vm.MSTORE)
+	p.Push(0).Op(vm.SLOAD).Push(160).Op(vm.MSTORE)
+	p.Push(192).Push(0).Op(vm.SHA3).Push(0x10).Op(vm.SSTORE) // one store: the digest of everything observed
+	p.Push(192).Push(0).Op(vm.LOG0)
+	return p.Return(32, 32).Bytes()
+}
+
 func setup() {
 	if err := node.Boot(node.ForksAllOn, true); err != nil {
 		panic(err)
@@ -121,11 +145,27 @@ func setup() {
 	st.SetNonce(common.HexToAddress(addrC3), 1)
 	st.SetCode(common.HexToAddress(addrC4), stakeOpsCode())
 	st.SetNonce(common.HexToAddress(addrC4), 1)
+	st.SetCode(common.HexToAddress(addrC5), probeCode())
+	st.SetNonce(common.HexToAddress(addrC5), 1)
+	st.SetData(common.HexToAddress(addrC5), common.Hash{}.Bytes(), word(3))
 	root, err := st.Commit(true)
 	if err != nil {
 		panic(err)
 	}
 	baseRoot = root
+	// sibling state: what a competing branch could have made of the same addresses
+	sb := node.StateAt(baseRoot)
+	nine, _ := utility.StrToBigInt("9")
+	sb.SetBalance(common.HexToAddress(node.AcctA), nine)
+	sb.SetCode(common.HexToAddress(addrC1), append(storeLogCode(), 0, 0, 0)) // same behaviour, other size and hash
+	sb.SetCode(common.HexToAddress(addrC2), storeLogCode())
+	sb.SetData(common.HexToAddress(addrC1), common.Hash{}.Bytes(), word(4))
+	sb.SetData(common.HexToAddress(addrC5), common.Hash{}.Bytes(), word(7))
+	sroot, err := sb.Commit(true)
+	if err != nil {
+		panic(err)
+	}
+	sibRoot = sroot
 	preTouch = [][]int{nil}
 	const reads = 5
 	for i := 0; i < reads; i++ {
@@ -209,6 +249,8 @@ func buildTx(s TxSpec, i int, st *account.AccountDB) *types.Transaction {
 		return node.ContractTx(types.TransactionTypeContract, src, addrC3, nil, 3000000, "0", 0, stamp)
 	case "callstakeops":
 		return node.ContractTx(types.TransactionTypeContract, src, addrC4, nil, 3000000, "0", 0, stamp)
+	case "callprobe":
+		return node.ContractTx(types.TransactionTypeContract, src, addrC5, nil, 3000000, "0", 0, stamp)
 	case "calloog":
 		return node.ContractTx(types.TransactionTypeContract, src, addrC1, word(9), 640000, "0", 0, stamp)
 	case "ethcall":
@@ -275,7 +317,11 @@ func execute(in Input, ch *fw.Chooser) (string, []string) {
 	}
 	common.SetBlockHeight(chainHeight + headAhead)
 	defer common.SetBlockHeight(chainHeight)
-	st := node.StateAt(baseRoot)
+	parent := baseRoot
+	if in.Sib {
+		parent = sibRoot
+	}
+	st := node.StateAt(parent)
 	if warm == 1 {
 		// execute two unrelated blocks on other state objects first (process-local caches warm)
 		for k := 0; k < 2; k++ {
@@ -516,7 +562,7 @@ func inputs(thorough bool) []Input {
 	// lists of <= L transactions over the mixed alphabet
 	alpha := []TxSpec{
 		{Kind: "create", Src: "A"}, {Kind: "call", Src: "A"}, {Kind: "callvalue", Src: "B"}, {Kind: "callrevert", Src: "A"},
-		{Kind: "calloog", Src: "B"}, {Kind: "ethcall", Src: "B"}, {Kind: "ethcall", Src: "P"}, {Kind: "call", Src: "P"}, {Kind: "callforkops", Src: "B"}, {Kind: "callstakeops", Src: "B"}, {Kind: "apply", Src: "B"}, {Kind: "applypoor", Src: "A"},
+		{Kind: "calloog", Src: "B"}, {Kind: "ethcall", Src: "B"}, {Kind: "ethcall", Src: "P"}, {Kind: "call", Src: "P"}, {Kind: "callforkops", Src: "B"}, {Kind: "callstakeops", Src: "B"}, {Kind: "callprobe", Src: "B"}, {Kind: "apply", Src: "B"}, {Kind: "applypoor", Src: "A"},
 		{Kind: "add", Src: "B"}, {Kind: "refund", Src: "B"}, {Kind: "change", Src: "B"},
 		{Kind: "transfer", Src: "B", Targets: [][2]string{{"A", "5"}}},
 		{Kind: "transfer", Src: "A", Targets: [][2]string{{"B", "6"}, {"A", "7"}}},
@@ -752,6 +798,14 @@ func run(c *fw.Ctx) {
 			sample = append(sample, in)
 		}
 	}
+	for _, txs := range [][]TxSpec{
+		{{Kind: "callprobe", Src: "B"}},
+		{{Kind: "callprobe", Src: "A"}, {Kind: "call", Src: "B"}},
+		{{Kind: "call", Src: "A"}, {Kind: "callprobe", Src: "B"}},
+		{{Kind: "create", Src: "A"}, {Kind: "callprobe", Src: "B"}},
+	} {
+		sample = append(sample, Input{Name: "list", Txs: txs})
+	}
 	restartedProcessPart(c, sample)
 	// local-head part over the single transactions and pairs of the mixed alphabet
 	var lh []Input
@@ -904,24 +958,48 @@ func restartedProcessPart(c *fw.Ctx, ins []Input) {
 		c.Infra("restarted-process part: first boot failed: " + out)
 		return
 	}
-	ib, _ := json.Marshal(ins)
+	// Two process histories are compared: this process created its database and executes every
+	// sample block on the base parent state first and on the sibling parent state (same
+	// addresses, other code / balances / storage) afterwards; the child is restarted over an
+	// existing database and executes them on the sibling state first.  A process-local cache
+	// that is keyed by less than the content it caches (an address instead of a code hash, ...)
+	// or that survives from one state to another makes the two disagree on at least one side.
+	var baseIns, sibIns []Input
+	for _, in := range ins {
+		baseIns = append(baseIns, in)
+		sb := in
+		sb.Sib = true
+		sibIns = append(sibIns, sb)
+	}
+	childOrder := append(append([]Input{}, sibIns...), baseIns...)
+	parentOrder := append(append([]Input{}, baseIns...), sibIns...)
+	ib, _ := json.Marshal(childOrder)
 	os.WriteFile(filepath.Join(dir, "inputs.json"), ib, 0o644)
 	if out, err := runChild("exec", "inputs.json", "out.json"); err != nil {
 		c.Violation("C01:restarted-process-died:"+fw.PanicSite([]byte("panic(\n"+out)), "process-history", "a node restarted over an existing database died executing the sample blocks: "+out, Case{Input: ins[0]})
 		return
 	}
-	var theirs []string
+	var theirsL []string
 	ob, _ := os.ReadFile(filepath.Join(dir, "out.json"))
-	json.Unmarshal(ob, &theirs)
-	for i, in := range ins {
-		mine, _ := execute(in, fw.NewReplayChooser(nil))
-		c.Eval(2)
-		if i < len(theirs) && mine != theirs[i] {
-			c.Violation("C01:diverge:env:created-database-vs-restarted-process", "process-history",
-				fmt.Sprintf("input %s: the process that created its database and a process restarted over an existing database execute the block differently\n creator  : %s\n restarted: %s", mustJSON(in), mine, theirs[i]), Case{Input: in})
+	json.Unmarshal(ob, &theirsL)
+	theirs := map[string]string{}
+	for i, in := range childOrder {
+		if i < len(theirsL) {
+			theirs[mustJSON(in)] = theirsL[i]
 		}
 	}
-	c.Count("restarted_process_comparisons", int64(len(ins)))
+	distinct := map[string]bool{}
+	for _, in := range parentOrder {
+		mine, _ := execute(in, fw.NewReplayChooser(nil))
+		c.Eval(2)
+		distinct[mine] = true
+		if t, ok := theirs[mustJSON(in)]; ok && mine != t {
+			c.Violation("C01:diverge:env:created-database-vs-restarted-process", "process-history",
+				fmt.Sprintf("input %s: two processes with different histories (creator of the database, base state executed first / restarted over the existing database, sibling state executed first) execute the block differently\n creator  : %s\n restarted: %s", mustJSON(in), mine, t), Case{Input: in})
+		}
+	}
+	c.Count("process_history_distinct_observations", int64(len(distinct)))
+	c.Count("restarted_process_comparisons", int64(len(parentOrder)))
 }
 
 func main() {
@@ -932,10 +1010,10 @@ func main() {
 	fw.Main(fw.Check{
 		ID: "C01", Level: "exploration",
 		Rule: "for every input block of the alphabet (asset transfers with every 1-3 entry target map over {other,self,SELF-uppercase,fresh} x amounts x JSON key orders; " +
-			"ordered lists of <=2 (quick) / <=3 (thorough) transactions over 15 representative transfer/contract/ETH-wrapped/miner transactions), " +
+			"ordered lists of <=2 (quick) / <=3 (thorough) transactions over 20 representative transfer/contract/ETH-wrapped/miner transactions incl. a probe contract reading other accounts' code size/hash/bytes and balance), " +
 			"stateless DFS over all executions with <= B deviations from the default decision at every choice point " +
 			"(start position of every multi-entry Go map iteration on the executing goroutine, clock offset, 26 pre-touch read orders, warm caches); " +
-			"oracle: identical (state root, receipts JSON + msg, receipts root, evicted list, tx list). non-trivial = input whose default execution passes >=1 map-iteration point and had >=2 executions compared; inputs are distinct by construction",
+			"plus two process histories (creator of the database executing on the base parent state first / process restarted over the database executing on a sibling parent state first) and node-local head positions; oracle: identical (state root, receipts JSON + msg, receipts root, evicted list, tx list). non-trivial = input whose default execution passes >=1 map-iteration point and had >=2 executions compared; inputs are distinct by construction",
 		Assumptions: []string{
 			"block execution is single-threaded (goroutines created inside the compared region are counted and reported)",
 			"maps with more than 4 buckets: only 32 start positions tried; bucket placement depends on per-map hash seeds which are not enumerated",
